@@ -53,7 +53,8 @@ PlacementClauses ==
 GroupClauses ==
      (IF c.models # <<>> THEN Fail(c.models = c.out, c.pid \o ".group_models_do_not_mirror_results") ELSE <<>>)
   \o (IF "rmodels" \in DOMAIN c /\ c.rmodels # <<>>
-      THEN Fail(c.rmodels = c.rexpected, c.pid \o ".group_recompute_edges_differs_from_functional_edge_recomputation_of_each_model") ELSE <<>>)
+      THEN Fail(c.rmodels = c.rexpected, c.pid \o ".group_recompute_edges_differs_from_functional_edge_recomputation_of_each_model")
+        \o Fail(c.rheld = c.rmodels, c.pid \o ".group_models_do_not_mirror_df_features_after_recompute_edges") ELSE <<>>)
   \o (IF "check_logs" \in DOMAIN c /\ c.check_logs THEN Fail(LogsInQueueOrder, c.pid \o ".worker_logs_not_a_partition_of_the_tasks_in_queue_order") ELSE <<>>)
 Clauses == IF c.raised # "" THEN <<c.pid \o ".raised">> ELSE PlacementClauses \o GroupClauses
 
